@@ -27,12 +27,12 @@ CLAIMS = {
    ref="§2 C18"),
 
  "C04": dict(
-   text="The one property that is almost entirely shape, decided exactly for its mask part: on the typed AST of both builds every mask operation is shown to treat all words uniformly and to cover each word once, and its per-word expression is constant-folded to a one-bit truth table (plus quantifier) that must equal the set operation of the specification; Get/Set addressing is matched against the accepted forms for the word width; every filter's Matches is evaluated as a truth table over its atoms against its definition. Because Go's bitwise operators act bit-parallel, the one-bit table decides all 2^256 masks, which no test can enumerate.",
-   note="Trusted: go/types for constants and callee resolution; the recognisers for the accepted source forms (anything else is reported as undecided, not passed). Nested logic filters follow compositionally from the per-node tables.",
-   technique="static analysis: typed-AST uniformity rules + truth-table folding of expressions against a specification table",
+   text="The one property that is almost entirely shape, decided exactly for its mask part in both builds: each Mask method's SSA form is abstractly interpreted over {small concrete integers, symbolic word expressions} (a loop over the words is unrolled by constant propagation of the index, a branch on a word comparison forks) to recover its per-word structure; every word must be covered exactly once by the same expression, a pure operation must not store into its operands, and the per-word expression, folded to a one-bit truth table (plus quantifier), must equal the set operation of the specification. Get/Set addressing is matched against the accepted forms for the word width; every filter's Matches (single expression or if-chain of returns) is evaluated as a truth table over its atoms against its definition. Because Go's bitwise operators act bit-parallel, the one-bit table decides all 2^256 masks, which no test can enumerate.",
+   note="Trusted: go/types and go/ssa; the abstract interpreter accepts only bit-parallel operators and ==/!= of words (anything else is reported as undecided, not passed); Get/Set and the filter atoms are recognised on the typed AST. Nested logic filters follow compositionally from the per-node tables. No solver and no execution: the truth tables are enumerated by the checker.",
+   technique="static analysis: abstract interpretation of SSA into per-word expressions, uniformity rules, truth-table folding against a specification table",
    ref="§2 C04"),
  "C12": dict(
-   text="Both copies of the subscription predicate are parsed from the typed AST as if-chains over 13 atoms and evaluated on all consistent assignments against the documented rule, with the event masks taken from the event constants; the mask builder, every notification site's argument correspondence (trigger, masks, component restriction, relation ids are the event's own), Dispatch's aggregation and accessors, and freshness of loop-carried notification inputs are checked structurally.",
+   text="Both copies of the subscription predicate are converted from their if-chains (helpers inlined) into one boolean expression over 13 atoms and evaluated on all consistent assignments against the documented rule, with the event masks taken from the event constants; the mask builder (on SSA: the i-th bool parameter ORs exactly the i-th event constant), constant pre-filters only where one event type is possible, every notification site's argument correspondence (trigger, masks, component restriction, relation ids are the event's own), Dispatch's aggregation and accessors, and freshness of loop-carried notification inputs are checked structurally.",
    note="Does not decide equality of delivered and selected streams over histories. Dispatch soundness additionally rests on monotonicity of the predicate (argument in DESIGN.md).",
    technique="static analysis: exhaustive truth table of a parsed predicate vs specification; typed-AST correspondence rules; SSA phi analysis",
    ref="§2 C12"),
